@@ -10,7 +10,7 @@ package ops
 
 //@ func IssuerCertFromBundle
 //@   assigns nothing
-//@   modifies caCalls, bundleKeyArg, lastBundle
+//@   modifies caCalls, bundleKeyArg, lastBundle, lastBundleOK
 //@   ensures err == nil ==> result != nil
 
 //@ func CreateCertificateFromTemplate
@@ -35,5 +35,5 @@ package ops
 // C12: unless overridden, the next signing-key serial is the current primary certificate's subject serial + 1.
 //@ func NextSigningKeySerial
 //@   assigns nothing
-//@   modifies bigv, caCalls, caPrimary, certKeyArg, lastCert
+//@   modifies bigv, caCalls, caPrimary, certKeyArg, lastCert, lastCertOK
 //@   ensures[C12] err == nil ==> result0 != nil && certKeyArg == caPrimary && bigv[result0] == strInt(certSubjSerial(lastCert)) + 1
